@@ -901,8 +901,7 @@ func (c *Checked) checkProvenance(i int, op Op, res *OpResult, evs []Event) {
 func (c *Checked) checkGroupArg(i int, who string, cons Consumer, p LeafParam, a ArgObs,
 	builtAtCall, builtNow map[int]bool, minted func(int) [][]int64, f *Func, ai int, lp []LeafParam) {
 	m := c.M
-	got := append([]int64(nil), a.Serials...)
-	sort.Slice(got, func(x, y int) bool { return got[x] < got[y] })
+	got := canonMembers(p.Key, a.Serials)
 	ds := m.DecsOnPath(cons.Scope, p.Key, cons.Self)
 	if len(ds) > 0 {
 		c.probe("group_decorated")
@@ -916,7 +915,7 @@ func (c *Checked) checkGroupArg(i int, who string, cons Consumer, p LeafParam, a
 					want = append(want, mm[li]...)
 				}
 			}
-			sort.Slice(want, func(x, y int) bool { return want[x] < want[y] })
+			want = canonMembers(p.Key, want)
 			if di == 0 {
 				first = want
 			}
@@ -957,7 +956,7 @@ func (c *Checked) checkGroupArg(i int, who string, cons Consumer, p LeafParam, a
 			c.probe("feeder_added_between")
 		}
 		c.groupSeen[gk] = len(feeders)
-		sort.Slice(want, func(x, y int) bool { return want[x] < want[y] })
+		want = canonMembers(p.Key, want)
 		if len(feeders) >= 3 {
 			c.probe("group_feeders>=3")
 		}
@@ -973,6 +972,9 @@ func (c *Checked) checkGroupArg(i int, who string, cons Consumer, p LeafParam, a
 			c.viol(i, "wrong-group-content", fmt.Sprintf("%s: expected members %v of %d visible feeders, received %s", who, want, len(feeders), c.describeSerials(got)), "C10", "C01")
 		}
 		return
+	}
+	if IsSliceT(p.Key.T) {
+		return // slice-typed members are only generated for hard consumers
 	}
 	// soft: upper = built now; lower = built before the Invoke began, plus
 	// feeders required by the other fields of the same parameter object.
@@ -1035,9 +1037,51 @@ func (c *Checked) checkGroupArg(i int, who string, cons Consumer, p LeafParam, a
 	}
 }
 
+// canonMembers puts the serials of a group argument into a canonical order:
+// sorted, or -- for members that are themselves slices -- the members sorted
+// as lists (each still introduced by SepSerial), so that two multisets of
+// members compare equal exactly when they hold the same members.
+func canonMembers(k Key, ss []int64) []int64 {
+	out := append([]int64(nil), ss...)
+	if !IsSliceT(k.T) {
+		sort.Slice(out, func(x, y int) bool { return out[x] < out[y] })
+		return out
+	}
+	var lists [][]int64
+	for _, s := range out {
+		if s == SepSerial {
+			lists = append(lists, nil)
+			continue
+		}
+		if len(lists) == 0 {
+			lists = append(lists, nil)
+		}
+		lists[len(lists)-1] = append(lists[len(lists)-1], s)
+	}
+	sort.Slice(lists, func(x, y int) bool {
+		a, b := lists[x], lists[y]
+		for i := 0; i < len(a) && i < len(b); i++ {
+			if a[i] != b[i] {
+				return a[i] < b[i]
+			}
+		}
+		return len(a) < len(b)
+	})
+	out = out[:0]
+	for _, l := range lists {
+		out = append(out, SepSerial)
+		out = append(out, l...)
+	}
+	return out
+}
+
 func (c *Checked) describeSerials(ss []int64) string {
 	var parts []string
 	for _, s := range ss {
+		if s == SepSerial {
+			parts = append(parts, "|")
+			continue
+		}
 		if s < 0 || int(s) >= len(c.R.W.Tokens) {
 			parts = append(parts, fmt.Sprintf("#%d(?)", s))
 			continue
